@@ -104,7 +104,7 @@ def check(ctx):
     units += [("hist", k, f) for k in ("int", "str") for f in ("name", "column")]
     units += [("hist", "int", f, "recycle") for f in ("name", "column")]
     units += [("big", p) for p in range(4)]
-    units += [("extra", f) for f in ("skew", "args", "dupnames", "twice", "self", "expectstr")]
+    units += [("extra", f) for f in ("skew", "args", "dupnames", "twice", "self", "expectstr", "namesake", "dupkeys")]
     agg = hashseeds.run(ctx, "props.c09", units)
     agg.notes["bound"] = "see joinspace.plan_units: quick rows<=3 (1 key) / <=2 (2 keys); thorough rows<=4 / <=3 / <=2 (3 keys)"
     agg.notes["exhaustive"] = True
@@ -119,7 +119,7 @@ def coverage_goals(ctx, agg):
     return bad
 
 
-_FAMILY_UNITS = {'skewed sizes': 'skew', 'caller-owned key lists': 'args', 'repeated column name': 'dupnames', 'two joins on the same table objects': 'twice', 'self-join': 'self', 'expect string built at run time': 'expectstr'}
+_FAMILY_UNITS = {'skewed sizes': 'skew', 'caller-owned key lists': 'args', 'repeated column name': 'dupnames', 'two joins on the same table objects': 'twice', 'self-join': 'self', 'expect string built at run time': 'expectstr', "key vector that carries a column's name": 'namesake', 'several different duplicated keys': 'dupkeys'}
 
 
 def replay(rec):
